@@ -12,6 +12,8 @@
    Part 3: the instantiated pipeline (model lexer + model parser + compilable + reference
    semantics) never yields a panic. *)
 From Coq Require Import ZArith Bool List String Lia Arith.
+Require Import X.Base.Value X.Syn.Ast X.Syn.Tok.
+Require X.Lex.Lexer X.Parse.Parser X.Sem.Prim X.Sem.Sem X.BC.Compiler X.BC.VM X.BC.RunProofs.
 Require Import X.Pipe.Pipeline.
 Import ListNotations.
 
@@ -26,6 +28,9 @@ Qed.
 Lemma guard_cases {A : Type} (b : bool) (x : out A) :
   guard b x = x \/ (b = true /\ x = PPanic /\ guard b x = PErr).
 Proof. unfold guard. destruct b; destruct x; auto. Qed.
+
+Lemma guard_ok_inv {A : Type} (b : bool) (x : out A) v : guard b x = POk v -> x = POk v.
+Proof. unfold guard. destruct b; destruct x; intros H; try discriminate; exact H. Qed.
 
 Lemma obind_no_panic {A B : Type} (x : out A) (k : A -> out B) :
   x <> PPanic -> (forall v, x = POk v -> k v <> PPanic) -> obind x k <> PPanic.
@@ -44,7 +49,7 @@ Section Contain.
     ut_constopt : contained StConstExprOpt (forall o c, s_opt_is_constexpr S o = true -> s_opt_apply S o c <> PPanic);
     ut_configcheck : contained StConfigCheck (forall c, s_config_check S c <> PPanic);
     ut_lex : contained StLex (forall x, s_lex S x <> PPanic);
-    ut_parse : contained StParse (forall ts, s_parse S ts <> PPanic);
+    ut_parse : contained StParse (forall x ts, s_lex S x = POk ts -> s_parse S ts <> PPanic);   (* on the lexer's outputs *)
     ut_check : contained StCheck (forall c t, s_check S c t <> PPanic);
     ut_patch : contained StPatchOperators (forall c t, s_patch_operators S c t <> PPanic);
     ut_inarray : contained StOptInArray (forall t, s_opt_inarray S t <> PPanic);
@@ -135,8 +140,8 @@ Section Contain.
       + intros s' H. destruct (g rt a StConfigCheck (s_config_check S (p_cfg s))); cbn in H; try discriminate.
         destruct (p_cfgerr s); try discriminate. inversion H; subst s'. exists ht, hp. auto.
     - (* CParse *) split.
-      + apply obind_no_panic; [eapply g_ok; [exact (ut_lex UT)|intros HP; apply HP]|intros ts _].
-        apply obind_no_panic; [eapply g_ok; [exact (ut_parse UT)|intros HP; apply HP]|discriminate].
+      + apply obind_no_panic; [eapply g_ok; [exact (ut_lex UT)|intros HP; apply HP]|intros ts Hts].
+        apply obind_no_panic; [eapply g_ok; [exact (ut_parse UT)|intros HP; eapply HP; eapply guard_ok_inv; exact Hts]|discriminate].
       + intros s' H. destruct (g rt a StLex (s_lex S src)); cbn in H; try discriminate.
         destruct (g rt a StParse (s_parse S a0)); cbn in H; try discriminate.
         inversion H; subst s'. exists true, hp. cbn. repeat split; auto. discriminate.
@@ -336,3 +341,896 @@ Proof.
       apply IH. exact H0. }
   rewrite (E cs1 _ H1). reflexivity.
 Qed.
+
+(* ================================================================== Part 2: totality of the modelled stages *)
+
+(* ------------------------------------------------------------------ lexer: the fuel is sufficient
+   Potential argument over the state functions of parser/lexer/state.go: with n = runes not yet read,
+     phi(root) = 2n+1   phi(number) = phi(dot) = phi(identifier) = 2n   phi(nilsafe) = phi(not) = 2n+2
+   every call of a state function that returns another state function strictly decreases phi, given
+   the entry invariants (root: empty word; number: a decimal digit ahead; dot: a rune ahead;
+   identifier: empty word and an alphanumeric rune ahead). *)
+Module LexTotal.
+Import X.Lex.Lexer.
+Local Open Scope nat_scope.
+Local Open Scope list_scope.
+
+Definition n (l : lexer) : nat := List.length (l_rest l).
+
+Lemma next_n l : n (snd (next l)) <= n l.
+Proof. unfold next, n. destruct (l_rest l); cbn; lia. Qed.
+
+Lemma next_cons_n l r t : l_rest l = r :: t -> fst (next l) = r /\ l_rest (snd (next l)) = t /\ l_word (snd (next l)) = r :: l_word l /\ l_width (snd (next l)) = 1%Z.
+Proof. intros H. unfold next. rewrite H. cbn. auto. Qed.
+
+Lemma next_nil_pos l : l_rest l = [] -> l_rest (snd (next l)) = [] /\ l_word (snd (next l)) = l_word l.
+Proof. intros H. unfold next. rewrite H. cbn. auto. Qed.
+
+Lemma next_nil_eof l : l_rest l = [] -> fst (next l) = eof.
+Proof. intros H. unfold next. rewrite H. reflexivity. Qed.
+
+(* backup directly after next: position (rest, word) of the state before next *)
+Lemma pk_pos l : l_rest (backup (snd (next l))) = l_rest l /\ l_word (backup (snd (next l))) = l_word l.
+Proof.
+  unfold next. destruct (l_rest l) as [|r t] eqn:E; cbn; unfold backup; cbn; auto.
+Qed.
+
+Lemma pk_n l : n (backup (snd (next l))) = n l.
+Proof. unfold n. destruct (pk_pos l) as [H _]. rewrite H. reflexivity. Qed.
+
+Lemma peek_pos l : l_rest (snd (peek l)) = l_rest l /\ l_word (snd (peek l)) = l_word l.
+Proof. unfold peek. destruct (next l) as [r l1] eqn:E. cbn. replace l1 with (snd (next l)) by (rewrite E; reflexivity). apply pk_pos. Qed.
+
+Lemma peek_n l : n (snd (peek l)) = n l.
+Proof. unfold n. destruct (peek_pos l) as [H _]. rewrite H. reflexivity. Qed.
+
+Lemma peek_fst l : fst (peek l) = fst (next l).
+Proof. unfold peek. destruct (next l); reflexivity. Qed.
+
+Lemma accept_n v l : n (snd (accept v l)) <= n l.
+Proof.
+  unfold accept. destruct (next l) as [r l1] eqn:E.
+  replace l1 with (snd (next l)) by (rewrite E; reflexivity).
+  destruct (mem r v); cbn; [apply next_n|rewrite pk_n; lia].
+Qed.
+
+Lemma accept_hit_n v l : fst (accept v l) = true -> l_rest l <> [] -> S (n (snd (accept v l))) = n l.
+Proof.
+  unfold accept. destruct (next l) as [r l1] eqn:E.
+  replace l1 with (snd (next l)) by (rewrite E; reflexivity).
+  destruct (mem r v); cbn; [|discriminate]. intros _ Hne.
+  destruct (l_rest l) as [|x t] eqn:R; [contradiction|].
+  destruct (next_cons_n l x t R) as (_ & H & _). unfold n. rewrite H, R. reflexivity.
+Qed.
+
+Lemma run_while_n p : forall fuel l, n (run_while p fuel l) <= n l.
+Proof.
+  induction fuel as [|f IH]; intros l; cbn [run_while]; [lia|].
+  destruct (next l) as [r l1] eqn:E. replace l1 with (snd (next l)) by (rewrite E; reflexivity).
+  destruct (p r).
+  - etransitivity; [apply IH|apply next_n].
+  - rewrite pk_n. lia.
+Qed.
+
+(* content of the zipper: what run_while / next / backup-after-next never change *)
+Lemma run_while_adv p : forall fuel l, exists w,
+  l_rest l = w ++ l_rest (run_while p fuel l) /\ l_word (run_while p fuel l) = rev w ++ l_word l.
+Proof.
+  induction fuel as [|f IH]; intros l; cbn [run_while]; [exists []; auto|].
+  destruct (next l) as [r l1] eqn:E. replace l1 with (snd (next l)) by (rewrite E; reflexivity).
+  destruct (p r) eqn:Ep.
+  - destruct (l_rest l) as [|x t] eqn:R.
+    + (* eof: next does not move *)
+      destruct (IH (snd (next l))) as (w & H1 & H2). exists w.
+      destruct (next_nil_pos l R) as [H3 H4]. rewrite H3 in H1. rewrite H4 in H2. auto.
+    + destruct (next_cons_n l x t R) as (_ & H3 & H4 & _).
+      destruct (IH (snd (next l))) as (w & H1 & H2). exists (x :: w). rewrite H3 in H1. rewrite H4 in H2.
+      split; [cbn; rewrite H1; reflexivity|]. rewrite H2. cbn. rewrite <- app_assoc. reflexivity.
+  - exists []. destruct (pk_pos l) as [H1 H2]. rewrite H1, H2. auto.
+Qed.
+
+Lemma run_while_head p fuel l r t : l_rest l = r :: t -> p r = true -> S (n (run_while p (S fuel) l)) <= n l.
+Proof.
+  intros R Hp. cbn [run_while]. destruct (next l) as [r' l1] eqn:E.
+  replace l1 with (snd (next l)) by (rewrite E; reflexivity).
+  destruct (next_cons_n l r t R) as (H0 & H1 & _). rewrite E in H0. cbn in H0. subst r'. rewrite Hp.
+  pose proof (run_while_n p fuel (snd (next l))) as H. unfold n in *. rewrite H1 in H. rewrite R. cbn. lia.
+Qed.
+
+Lemma acceptRun_n v l : n (acceptRun v l) <= n l.
+Proof. apply run_while_n. Qed.
+
+Lemma restore_n saved l : n (restore saved l) = n saved.
+Proof. reflexivity. Qed.
+
+Lemma set_error_n l : n (set_error l) = n l.
+Proof. unfold set_error. destruct (l_err l); reflexivity. Qed.
+
+Lemma scanDigits_n : forall k ch base l, n (snd (scanDigits ch base k l)) <= n l.
+Proof.
+  induction k as [|k IH]; intros ch base l; cbn [scanDigits]; [cbn; lia|].
+  destruct (digitVal ch <? base)%Z.
+  - destruct (next l) as [c l1] eqn:E. replace l1 with (snd (next l)) by (rewrite E; reflexivity).
+    etransitivity; [apply IH|apply next_n].
+  - cbn. rewrite set_error_n. lia.
+Qed.
+
+Lemma scanEscape_n q l : n (snd (scanEscape q l)) <= n l.
+Proof.
+  unfold scanEscape. destruct (next l) as [ch l1] eqn:E.
+  assert (H1 : n l1 <= n l) by (replace l1 with (snd (next l)) by (rewrite E; reflexivity); apply next_n).
+  assert (N2 : forall k base, n (snd (let (c, l2) := next l1 in scanDigits c base k l2)) <= n l).
+  { intros k base. destruct (next l1) as [c l2] eqn:E2.
+    assert (n l2 <= n l1) by (replace l2 with (snd (next l1)) by (rewrite E2; reflexivity); apply next_n).
+    pose proof (scanDigits_n k c base l2). lia. }
+  destruct (mem ch (rs "abfnrtv\") || (ch =? q)%Z).
+  - pose proof (next_n l1). lia.
+  - destruct (mem ch (rs "01234567")); [pose proof (scanDigits_n 3 ch 8%Z l1); lia|].
+    destruct (ch =? 120)%Z; [apply N2|].
+    destruct (ch =? 117)%Z; [apply N2|].
+    destruct (ch =? 85)%Z; [apply N2|].
+    cbn. rewrite set_error_n. exact H1.
+Qed.
+
+Lemma scanString_go_n : forall fuel q ch l, n (scanString_go fuel q ch l) <= n l.
+Proof.
+  induction fuel as [|f IH]; intros q ch l; cbn [scanString_go]; [lia|].
+  destruct (ch =? q)%Z; [lia|].
+  destruct ((ch =? 10)%Z || (ch =? eof)%Z); [rewrite set_error_n; lia|].
+  destruct (ch =? 92)%Z.
+  - destruct (scanEscape q l) as [ch' l'] eqn:E.
+    assert (n l' <= n l) by (replace l' with (snd (scanEscape q l)) by (rewrite E; reflexivity); apply scanEscape_n).
+    pose proof (IH q ch' l'). lia.
+  - destruct (next l) as [ch' l'] eqn:E.
+    assert (n l' <= n l) by (replace l' with (snd (next l)) by (rewrite E; reflexivity); apply next_n).
+    pose proof (IH q ch' l'). lia.
+Qed.
+
+Lemma scanString_n q l : n (scanString q l) <= n l.
+Proof.
+  unfold scanString. destruct (next l) as [ch l1] eqn:E.
+  assert (n l1 <= n l) by (replace l1 with (snd (next l)) by (rewrite E; reflexivity); apply next_n).
+  pose proof (scanString_go_n (S (S (List.length (l_rest l1)))) q ch l1). lia.
+Qed.
+
+Lemma emitValue_n k v l : n (emitValue k v l) = n l. Proof. reflexivity. Qed.
+Lemma emit_n k l : n (emit k l) = n l. Proof. reflexivity. Qed.
+Lemma ignore_n l : n (ignore l) = n l. Proof. reflexivity. Qed.
+Lemma emitValue_word k v l : l_word (emitValue k v l) = []. Proof. reflexivity. Qed.
+Lemma emit_word k l : l_word (emit k l) = []. Proof. reflexivity. Qed.
+Lemma ignore_word l : l_word (ignore l) = []. Proof. reflexivity. Qed.
+
+Section WithClasses.
+  Variables uni_letter uni_digit uni_space : Z -> bool.
+  Notation is_alnum := (is_alnum uni_letter uni_digit).
+  Notation step := (step uni_letter uni_digit uni_space).
+  Notation lex_fuel := (lex_fuel uni_letter uni_digit uni_space).
+
+  Lemma scanNumber_exp_n digits l : n (snd (scanNumber_exp uni_letter uni_digit digits l)) <= n l.
+  Proof.
+    unfold scanNumber_exp. destruct (accept (rs "eE") l) as [e l1] eqn:E1.
+    assert (H1 : n l1 <= n l) by (replace l1 with (snd (accept (rs "eE") l)) by (rewrite E1; reflexivity); apply accept_n).
+    set (l2 := if e then acceptRun digits (snd (accept (rs "+-") l1)) else l1).
+    assert (H2 : n l2 <= n l1).
+    { unfold l2. destruct e; [|lia]. pose proof (acceptRun_n digits (snd (accept (rs "+-") l1))). pose proof (accept_n (rs "+-") l1). lia. }
+    destruct (peek l2) as [p l3] eqn:E3.
+    assert (H3 : n l3 = n l2) by (replace l3 with (snd (peek l2)) by (rewrite E3; reflexivity); apply peek_n).
+    destruct (is_alnum p); cbn; [pose proof (next_n l3)|]; lia.
+  Qed.
+
+  Lemma scanNumber_frac_n digits l : n (snd (scanNumber_frac uni_letter uni_digit digits l)) <= n l.
+  Proof.
+    unfold scanNumber_frac. destruct (accept (rs ".") l) as [d l4] eqn:E1.
+    assert (H1 : n l4 <= n l) by (replace l4 with (snd (accept (rs ".") l)) by (rewrite E1; reflexivity); apply accept_n).
+    destruct d.
+    - destruct (peek l4) as [p l5] eqn:E2.
+      assert (H2 : n l5 = n l4) by (replace l5 with (snd (peek l4)) by (rewrite E2; reflexivity); apply peek_n).
+      destruct (p =? 46)%Z; [cbn [snd]; rewrite restore_n; lia|].
+      pose proof (scanNumber_exp_n digits (acceptRun digits l5)). pose proof (acceptRun_n digits l5). lia.
+    - pose proof (scanNumber_exp_n digits l4). lia.
+  Qed.
+
+  Lemma scanNumber_prefix_n l : n (snd (scanNumber_prefix l)) <= n l.
+  Proof.
+    unfold scanNumber_prefix. destruct (accept (rs "0") l) as [z l1] eqn:E1.
+    assert (H1 : n l1 <= n l) by (replace l1 with (snd (accept (rs "0") l)) by (rewrite E1; reflexivity); apply accept_n).
+    destruct z; [|cbn; lia].
+    destruct (accept (rs "xX") l1) as [x l2] eqn:E2.
+    assert (H2 : n l2 <= n l1) by (replace l2 with (snd (accept (rs "xX") l1)) by (rewrite E2; reflexivity); apply accept_n).
+    destruct x; [cbn; lia|].
+    destruct (accept (rs "oO") l2) as [o l3] eqn:E3.
+    assert (H3 : n l3 <= n l2) by (replace l3 with (snd (accept (rs "oO") l2)) by (rewrite E3; reflexivity); apply accept_n).
+    destruct o; [cbn; lia|].
+    destruct (accept (rs "bB") l3) as [b l4] eqn:E4.
+    assert (H4 : n l4 <= n l3) by (replace l4 with (snd (accept (rs "bB") l3)) by (rewrite E4; reflexivity); apply accept_n).
+    destruct b; cbn; lia.
+  Qed.
+
+  Definition is_dec_digit (d : Z) : bool := (48 <=? d)%Z && (d <=? 57)%Z.
+
+  Lemma dec_digit_mem d : is_dec_digit d = true -> mem d dec_digits = true.
+  Proof.
+    unfold is_dec_digit. intros H. apply andb_true_iff in H. destruct H as [H1 H2].
+    apply Z.leb_le in H1. apply Z.leb_le in H2.
+    assert (C : (d = 48 \/ d = 49 \/ d = 50 \/ d = 51 \/ d = 52 \/ d = 53 \/ d = 54 \/ d = 55 \/ d = 56 \/ d = 57)%Z) by lia.
+    destruct C as [C|[C|[C|[C|[C|[C|[C|[C|[C|C]]]]]]]]]; subst d; reflexivity.
+  Qed.
+
+  (* a number state entered in front of a decimal digit consumes it *)
+  Lemma scanNumber_strict l d t : l_rest l = d :: t -> is_dec_digit d = true ->
+    S (n (snd (scanNumber uni_letter uni_digit l))) <= n l.
+  Proof.
+    intros R Hd. unfold scanNumber.
+    destruct (scanNumber_prefix l) as [digits l2] eqn:EP.
+    pose proof (scanNumber_frac_n digits (acceptRun digits l2)) as HF.
+    pose proof (acceptRun_n digits l2) as HR.
+    enough (S (n (acceptRun digits l2)) <= n l) by lia.
+    unfold scanNumber_prefix in EP.
+    destruct (accept (rs "0") l) as [z l1] eqn:E1.
+    destruct z.
+    - (* the leading 0 was consumed *)
+      assert (H1 : S (n l1) = n l).
+      { replace l1 with (snd (accept (rs "0") l)) by (rewrite E1; reflexivity). apply accept_hit_n; [rewrite E1; reflexivity|rewrite R; discriminate]. }
+      assert (H2 : n l2 <= n l1).
+      { replace l2 with (snd (scanNumber_prefix l)); [|unfold scanNumber_prefix; rewrite E1; rewrite EP; reflexivity].
+        pose proof (scanNumber_prefix_n l) as HP. unfold scanNumber_prefix in *. rewrite E1 in *.
+        clear - E1 EP HP H1.
+        destruct (accept (rs "xX") l1) as [x l2'] eqn:E2.
+        assert (n l2' <= n l1) by (replace l2' with (snd (accept (rs "xX") l1)) by (rewrite E2; reflexivity); apply accept_n).
+        destruct x; [cbn; lia|].
+        destruct (accept (rs "oO") l2') as [o l3] eqn:E3.
+        assert (n l3 <= n l2') by (replace l3 with (snd (accept (rs "oO") l2')) by (rewrite E3; reflexivity); apply accept_n).
+        destruct o; [cbn; lia|].
+        destruct (accept (rs "bB") l3) as [b l4] eqn:E4.
+        assert (n l4 <= n l3) by (replace l4 with (snd (accept (rs "bB") l3)) by (rewrite E4; reflexivity); apply accept_n).
+        destruct b; cbn; lia. }
+      lia.
+    - (* no leading 0: the digit is consumed by acceptRun *)
+      inversion EP; subst digits l2. clear EP.
+      assert (P1 : l_rest l1 = l_rest l).
+      { unfold accept in E1. destruct (next l) as [r l'] eqn:E. destruct (mem r (rs "0")); inversion E1; subst l1.
+        replace l' with (snd (next l)) by (rewrite E; reflexivity). apply pk_pos. }
+      assert (R1 : l_rest l1 = d :: t) by (rewrite P1; exact R).
+      pose proof (run_while_head (fun r => mem r dec_digits) (List.length (l_rest l1)) l1 d t R1 (dec_digit_mem d Hd)) as H.
+      unfold acceptRun. assert (N1 : n l1 = n l) by (unfold n; rewrite P1; reflexivity). lia.
+  Qed.
+
+  Lemma skip_spaces_n : forall fuel l, n (skip_spaces fuel l) <= n l.
+  Proof.
+    induction fuel as [|f IH]; intros l; cbn [skip_spaces]; [lia|].
+    destruct (peek l) as [r l1] eqn:E.
+    assert (H1 : n l1 = n l) by (replace l1 with (snd (peek l)) by (rewrite E; reflexivity); apply peek_n).
+    destruct (r =? 32)%Z; [|lia]. pose proof (IH (snd (next l1))). pose proof (next_n l1). lia.
+  Qed.
+
+  Lemma expect_word_n : forall w l, n (snd (expect_word w l)) <= n l.
+  Proof.
+    induction w as [|ch w IH]; intros l; cbn [expect_word]; [cbn; lia|].
+    destruct (next l) as [r l1] eqn:E.
+    assert (n l1 <= n l) by (replace l1 with (snd (next l)) by (rewrite E; reflexivity); apply next_n).
+    destruct (r =? ch)%Z; [pose proof (IH l1); lia|cbn; lia].
+  Qed.
+
+  Lemma acceptWord_n w l : n (snd (acceptWord w l)) <= n l.
+  Proof.
+    unfold acceptWord.
+    pose proof (skip_spaces_n (S (List.length (l_rest l))) l) as H1.
+    pose proof (expect_word_n w (skip_spaces (S (List.length (l_rest l))) l)) as H2.
+    destruct (expect_word w (skip_spaces (S (List.length (l_rest l))) l)) as [ok l2].
+    destruct ok; [|cbn [snd]; rewrite restore_n; lia].
+    destruct (peek l2) as [r l3] eqn:E.
+    assert (H3 : n l3 = n l2) by (replace l3 with (snd (peek l2)) by (rewrite E; reflexivity); apply peek_n).
+    destruct (negb (r =? 32)%Z && negb (r =? eof)%Z); cbn [snd]; [rewrite restore_n; lia|].
+    cbn [snd] in H2. lia.
+  Qed.
+
+  (* ---------------------------------------------------------------- the potential argument *)
+  Definition phi (st : stfn) (l : lexer) : nat :=
+    match st with
+    | SRoot => 2 * n l + 1
+    | SNumber | SDot | SIdentifier => 2 * n l
+    | SNilsafe | SNot => 2 * n l + 2
+    end.
+
+  Definition inv (st : stfn) (l : lexer) : Prop :=
+    match st with
+    | SRoot => l_word l = []
+    | SNumber => exists d t, l_rest l = d :: t /\ is_dec_digit d = true
+    | SDot => l_rest l <> []
+    | SIdentifier => l_word l = [] /\ exists r t, l_rest l = r :: t /\ is_alnum r = true
+    | SNilsafe | SNot => True
+    end.
+
+  Lemma runes_eqb_eq : forall a b, runes_eqb a b = true -> a = b.
+  Proof.
+    induction a as [|x a IH]; destruct b as [|y b]; cbn; try discriminate; auto.
+    intros H. apply andb_true_iff in H. destruct H as [H1 H2]. apply Z.eqb_eq in H1. subst. f_equal. auto.
+  Qed.
+
+  Lemma digit_of_mem d : mem d (rs "0123456789") = true -> is_dec_digit d = true.
+  Proof.
+    cbn. intros H. unfold is_dec_digit.
+    repeat (apply orb_true_iff in H; destruct H as [H|H]; [apply Z.eqb_eq in H; subst d; reflexivity|]).
+    discriminate.
+  Qed.
+
+  Lemma step_decreases st l st' l' : inv st l -> step st l = (Some st', l') ->
+    inv st' l' /\ phi st' l' < phi st l.
+  Proof.
+    intros Hinv Hs. destruct st; cbn [Lexer.step] in Hs.
+    - (* SRoot *)
+      cbn in Hinv.
+      destruct (next l) as [r l1] eqn:E.
+      assert (L1 : l1 = snd (next l)) by (rewrite E; reflexivity).
+      destruct (r =? eof)%Z eqn:Eeof; [discriminate|].
+      destruct (l_rest l) as [|x t] eqn:R.
+      { pose proof (next_nil_eof l R) as H. rewrite E in H. cbn in H. subst r. discriminate. }
+      destruct (next_cons_n l x t R) as (F0 & F1 & F2 & F3). rewrite E in F0. cbn in F0. subst x.
+      rewrite <- L1 in F1, F2, F3.
+      assert (N1 : S (n l1) = n l) by (unfold n; rewrite F1, R; reflexivity).
+      assert (PK : l_rest (backup l1) = r :: t /\ l_word (backup l1) = []).
+      { rewrite L1. destruct (pk_pos l) as [A1 A2]. rewrite A1, A2, R, Hinv. auto. }
+      assert (NPK : n (backup l1) = n l) by (rewrite L1; apply pk_n).
+      destruct (is_space uni_space r).
+      { inversion Hs; subst st' l'. cbn [inv phi]. rewrite ignore_n. split; [reflexivity|lia]. }
+      destruct ((r =? 39)%Z || (r =? 34)%Z).
+      { pose proof (scanString_n r l1) as HS.
+        destruct (unescape (word (scanString r l1))); inversion Hs; subst st' l'; cbn [inv phi].
+        - rewrite emitValue_n. split; [reflexivity|lia].
+        - rewrite emitValue_n, set_error_n. split; [reflexivity|lia]. }
+      destruct ((48 <=? r)%Z && (r <=? 57)%Z) eqn:Edig.
+      { inversion Hs; subst st' l'. cbn [inv phi]. split; [|lia].
+        exists r, t. split; [apply PK|exact Edig]. }
+      destruct (r =? 63)%Z.
+      { destruct (peek l1) as [p l2] eqn:E2.
+        assert (N2 : n l2 = n l1) by (replace l2 with (snd (peek l1)) by (rewrite E2; reflexivity); apply peek_n).
+        destruct (p =? 46)%Z; inversion Hs; subst st' l'; cbn [inv phi]; [split; [exact I|lia]|].
+        rewrite emit_n. split; [reflexivity|lia]. }
+      destruct (mem r (rs "([{")); [inversion Hs; subst st' l'; cbn [inv phi]; rewrite emit_n; split; [reflexivity|lia]|].
+      destruct (mem r (rs ")]}")); [inversion Hs; subst st' l'; cbn [inv phi]; rewrite emit_n; split; [reflexivity|lia]|].
+      destruct (mem r (rs "#,?:%+-/")); [inversion Hs; subst st' l'; cbn [inv phi]; rewrite emit_n; split; [reflexivity|lia]|].
+      destruct (mem r (rs "&|!=*<>")).
+      { inversion Hs; subst st' l'; cbn [inv phi]; rewrite emit_n. pose proof (accept_n (rs "&|=*") l1). split; [reflexivity|lia]. }
+      destruct (r =? 46)%Z.
+      { inversion Hs; subst st' l'. cbn [inv phi]. split; [|lia]. destruct PK as [A _]. rewrite A. discriminate. }
+      destruct (is_alnum r) eqn:Eal; [|discriminate].
+      inversion Hs; subst st' l'. cbn [inv phi]. split; [|lia]. split; [apply PK|]. exists r, t. split; [apply PK|exact Eal].
+    - (* SNumber *)
+      destruct Hinv as (d & t & R & Hd).
+      pose proof (scanNumber_strict l d t R Hd) as HN.
+      destruct (scanNumber uni_letter uni_digit l) as [ok l1]. cbn [snd] in HN.
+      destruct ok; inversion Hs; subst st' l'. cbn [inv phi]. rewrite emit_n. split; [reflexivity|lia].
+    - (* SDot *)
+      cbn in Hinv.
+      destruct (next l) as [c l1] eqn:E.
+      assert (L1 : l1 = snd (next l)) by (rewrite E; reflexivity).
+      destruct (l_rest l) as [|x t] eqn:R; [contradiction|].
+      destruct (next_cons_n l x t R) as (_ & F1 & _). rewrite <- L1 in F1.
+      assert (N1 : S (n l1) = n l) by (unfold n; rewrite F1, R; reflexivity).
+      unfold accept in Hs. destruct (next l1) as [r2 l2] eqn:E2.
+      assert (L2 : l2 = snd (next l1)) by (rewrite E2; reflexivity).
+      destruct (mem r2 (rs "0123456789")) eqn:Em.
+      + inversion Hs; subst st' l'. cbn [inv phi].
+        destruct (pk_pos l1) as [A1 A2]. pose proof (pk_n l1) as A3. rewrite <- L2 in A1, A2, A3.
+        split; [|lia].
+        destruct (l_rest l1) as [|y t1] eqn:R1.
+        { pose proof (next_nil_eof l1 R1) as H. rewrite E2 in H. cbn in H. subst r2. discriminate. }
+        destruct (next_cons_n l1 y t1 R1) as (G0 & _). rewrite E2 in G0. cbn in G0. subst y.
+        exists r2, t1. split; [rewrite A1; reflexivity|apply digit_of_mem; exact Em].
+      + destruct (next (backup l2)) as [r3 l3] eqn:E3.
+        assert (N2 : n (backup l2) = n l1) by (rewrite L2; apply pk_n).
+        assert (N3 : n l3 <= n (backup l2)) by (replace l3 with (snd (next (backup l2))) by (rewrite E3; reflexivity); apply next_n).
+        destruct (mem r3 (rs ".")); inversion Hs; subst st' l'; cbn [inv phi snd]; rewrite emit_n.
+        * split; [reflexivity|lia].
+        * replace l3 with (snd (next (backup l2))) by (rewrite E3; reflexivity). rewrite pk_n. split; [reflexivity|lia].
+    - (* SNilsafe *)
+      destruct (next l) as [c l1] eqn:E.
+      assert (N1 : n l1 <= n l) by (replace l1 with (snd (next l)) by (rewrite E; reflexivity); apply next_n).
+      inversion Hs; subst st' l'. cbn [inv phi]. rewrite emit_n. pose proof (accept_n (rs "?.") l1). split; [reflexivity|lia].
+    - (* SIdentifier *)
+      destruct Hinv as (Hw & r & t & R & Hal).
+      set (l1 := run_while is_alnum (S (List.length (l_rest l))) l) in *.
+      pose proof (run_while_head is_alnum (List.length (l_rest l)) l r t R Hal) as HN. fold l1 in HN.
+      destruct (runes_eqb (word l1) (rs "not")) eqn:Enot.
+      + inversion Hs; subst st' l'. cbn [inv phi]. split; [exact I|].
+        destruct (run_while_adv is_alnum (S (List.length (l_rest l))) l) as (w & W1 & W2). fold l1 in W1, W2.
+        apply runes_eqb_eq in Enot. unfold word in Enot. rewrite W2, Hw, app_nil_r, rev_involutive in Enot.
+        subst w. unfold n. rewrite W1. cbn. lia.
+      + destruct (existsb (runes_eqb (word l1)) word_operators); inversion Hs; subst st' l'; cbn [inv phi]; rewrite emit_n; split; try reflexivity; lia.
+    - (* SNot *)
+      pose proof (acceptWord_n (rs "in") l) as HN.
+      destruct (acceptWord (rs "in") l) as [ok l1]. cbn [snd] in HN.
+      destruct ok; inversion Hs; subst st' l'; cbn [inv phi]; rewrite emitValue_n; split; try reflexivity; lia.
+  Qed.
+
+  Lemma lex_fuel_enough : forall fuel st l, inv st l -> phi st l < fuel -> lex_fuel fuel st l <> None.
+  Proof.
+    induction fuel as [|f IH]; intros st l Hi Hf; [lia|].
+    cbn [Lexer.lex_fuel]. destruct (step st l) as [[st'|] l'] eqn:E; [|discriminate].
+    destruct (step_decreases st l st' l' Hi E) as [Hi' Hd]. apply IH; [exact Hi'|lia].
+  Qed.
+
+  (* the fuel 2*|input|+2 of the lexer model suffices for EVERY rune list *)
+  Theorem lex_total input : lex uni_letter uni_digit uni_space input <> LexOutOfFuel.
+  Proof.
+    unfold lex.
+    pose proof (lex_fuel_enough (2 * List.length input + 2) SRoot (init input)) as H.
+    destruct (lex_fuel (2 * List.length input + 2) SRoot (init input)) as [l|].
+    - destruct (l_err l); discriminate.
+    - exfalso. apply H; [reflexivity|cbn; lia|reflexivity].
+  Qed.
+
+  (* lexer.Lex never returns an empty token list: parser.Parse's tokens[0] cannot fail *)
+  Lemma set_error_err l : l_err (set_error l) <> None.
+  Proof. unfold set_error. destruct (l_err l) eqn:E; [rewrite E; discriminate|cbn; discriminate]. Qed.
+
+  Lemma step_final st l l' : step st l = (None, l') -> l_err l' <> None \/ l_tokens l' <> [].
+  Proof.
+    intros Hs. destruct st; cbn [Lexer.step] in Hs.
+    - destruct (next l) as [r l1].
+      destruct (r =? eof)%Z; [inversion Hs; subst; right; cbn; discriminate|].
+      destruct (is_space uni_space r); [discriminate|].
+      destruct ((r =? 39)%Z || (r =? 34)%Z); [destruct (unescape (word (scanString r l1))); discriminate|].
+      destruct ((48 <=? r)%Z && (r <=? 57)%Z); [discriminate|].
+      destruct (r =? 63)%Z; [destruct (peek l1) as [p l2]; destruct (p =? 46)%Z; discriminate|].
+      destruct (mem r (rs "([{")); [discriminate|].
+      destruct (mem r (rs ")]}")); [discriminate|].
+      destruct (mem r (rs "#,?:%+-/")); [discriminate|].
+      destruct (mem r (rs "&|!=*<>")); [discriminate|].
+      destruct (r =? 46)%Z; [discriminate|].
+      destruct (is_alnum r); [discriminate|].
+      inversion Hs; subst. left. apply set_error_err.
+    - destruct (scanNumber uni_letter uni_digit l) as [ok l1]. destruct ok; [discriminate|].
+      inversion Hs; subst. left. apply set_error_err.
+    - destruct (next l) as [c l1]. destruct (accept (rs "0123456789") l1) as [d l2]. destruct d; discriminate.
+    - destruct (next l) as [c l1]. discriminate.
+    - destruct (runes_eqb _ _); [discriminate|]. destruct (existsb _ _); discriminate.
+    - destruct (acceptWord (rs "in") l) as [ok l1]. destruct ok; discriminate.
+  Qed.
+
+  Lemma lex_fuel_final : forall fuel st l l', lex_fuel fuel st l = Some l' -> l_err l' <> None \/ l_tokens l' <> [].
+  Proof.
+    induction fuel as [|f IH]; intros st l l' H; [discriminate|].
+    cbn [Lexer.lex_fuel] in H. destruct (step st l) as [[st'|] l1] eqn:E.
+    - eapply IH; eauto.
+    - inversion H; subst. eapply step_final; eauto.
+  Qed.
+
+  Theorem lex_ok_nonempty input ts : lex uni_letter uni_digit uni_space input = LexOk ts -> ts <> [].
+  Proof.
+    unfold lex. destruct (lex_fuel (2 * List.length input + 2) SRoot (init input)) as [l|] eqn:E; [|discriminate].
+    destruct (lex_fuel_final _ _ _ _ E) as [H|H].
+    - destruct (l_err l); [discriminate|contradiction].
+    - destruct (l_err l); [discriminate|]. intros H1. inversion H1; subst. intros H2.
+      apply H. apply (f_equal (@rev token)) in H2. rewrite rev_involutive in H2. exact H2.
+  Qed.
+End WithClasses.
+End LexTotal.
+
+(* ------------------------------------------------------------------ parser: the fuel is sufficient
+   Every nested parseExpression and every loop iteration runs on a strictly shorter token list
+   (weakest-precondition style lemmas per parse function; `lt_ts rest ts`: rest is non-empty and
+   shorter than ts). *)
+Module ParseTotal.
+Import X.Parse.Parser.
+Local Open Scope list_scope.
+
+Definition lt_ts (rest ts : list token) : Prop := rest <> [] /\ (List.length rest < List.length ts)%nat.
+Definition le_ts (rest ts : list token) : Prop := rest <> [] /\ (List.length rest <= List.length ts)%nat.
+
+Definition wp {A : Type} (r : pres A) (Q : A -> list token -> Prop) : Prop :=
+  match r with POk a rest => Q a rest | PErr _ => True | PFuel => False end.
+
+Lemma wp_mono {A : Type} (r : pres A) (Q Q' : A -> list token -> Prop) :
+  wp r Q -> (forall a x, Q a x -> Q' a x) -> wp r Q'.
+Proof. destruct r; cbn; auto. Qed.
+
+Lemma wp_pbind {A B : Type} (r : pres A) (k : A -> list token -> pres B) Q :
+  wp r (fun a ts' => wp (k a ts') Q) -> wp (pbind r k) Q.
+Proof. destruct r; cbn; auto. Qed.
+
+Lemma wp_next {A : Type} ts (k : list token -> pres A) Q :
+  (forall ts1, lt_ts ts1 ts -> wp (k ts1) Q) -> wp (next ts k) Q.
+Proof.
+  intros H. destruct ts as [|t [|t2 r]]; cbn; auto.
+  apply H. split; [discriminate|cbn; lia].
+Qed.
+
+Lemma wp_expect {A : Type} kd v ts (k : list token -> pres A) Q :
+  (forall ts1, lt_ts ts1 ts -> wp (k ts1) Q) -> wp (expect kd v ts k) Q.
+Proof. intros H. unfold expect. destruct (tok_is (cur ts) kd [v]); [apply wp_next; exact H|exact I]. Qed.
+
+Lemma lt_le a b : lt_ts a b -> le_ts a b.
+Proof. unfold lt_ts, le_ts. intros [? ?]; split; [auto|lia]. Qed.
+Lemma le_refl ts : ts <> [] -> le_ts ts ts.
+Proof. split; auto. Qed.
+Lemma lt_le_trans a b c : lt_ts a b -> le_ts b c -> lt_ts a c.
+Proof. unfold lt_ts, le_ts. intros [? ?] [? ?]; split; [auto|lia]. Qed.
+Lemma le_lt_trans a b c : le_ts a b -> lt_ts b c -> lt_ts a c.
+Proof. unfold lt_ts, le_ts. intros [? ?] [? ?]; split; [auto|lia]. Qed.
+Lemma le_le_trans a b c : le_ts a b -> le_ts b c -> le_ts a c.
+Proof. unfold le_ts. intros [? ?] [? ?]; split; [auto|lia]. Qed.
+Lemma lt_lt_trans a b c : lt_ts a b -> lt_ts b c -> lt_ts a c.
+Proof. unfold lt_ts. intros [? ?] [? ?]; split; [auto|lia]. Qed.
+
+Section Body.
+  Variable g : grammar.
+  Variable o : oracles.
+  Variable pe : Z -> nat -> list token -> pres expr.
+  Variable B : nat.
+  Hypothesis Hpe : forall prec d ts, ts <> [] -> (List.length ts < B)%nat ->
+    wp (pe prec d ts) (fun _ rest => lt_ts rest ts).
+
+  Ltac len := unfold lt_ts, le_ts in *; repeat match goal with H : _ /\ _ |- _ => destruct H end; try split; auto; try lia.
+
+  Lemma pe_ok prec d ts ts0 (Q : expr -> list token -> Prop) :
+    lt_ts ts ts0 -> (List.length ts0 <= B)%nat ->
+    (forall e rest, lt_ts rest ts -> Q e rest) -> wp (pe prec d ts) Q.
+  Proof.
+    intros H1 H2 HQ. eapply wp_mono; [apply Hpe; len|]. cbn. intros e x Hx. apply HQ. exact Hx.
+  Qed.
+
+  Lemma args_loop_ok : forall lf d acc ts, ts <> [] -> (List.length ts < B)%nat -> (List.length ts <= lf)%nat ->
+    wp (args_loop pe lf d acc ts) (fun _ rest => le_ts rest ts).
+  Proof.
+    induction lf as [|lf IH]; intros d acc ts Hne HB Hlf; cbn [args_loop].
+    - destruct ts; [contradiction|cbn in Hlf; lia].
+    - destruct (tok_is (cur ts) TkBracket [")"%string]); [cbn; len|].
+      assert (K : forall ts1, le_ts ts1 ts ->
+              wp (pbind (pe 0 d ts1) (fun node ts2 => args_loop pe lf d (acc ++ [node]) ts2)) (fun _ rest => le_ts rest ts)).
+      { intros ts1 H1. apply wp_pbind. eapply wp_mono; [apply Hpe; len|]. cbn. intros e ts2 H2.
+        eapply wp_mono; [apply IH; len|]. cbn. intros _ rest H3. len. }
+      destruct acc.
+      + apply K. len.
+      + apply wp_expect. intros ts1 H1. apply K. len.
+  Qed.
+
+  Variable LF : nat.
+
+  Lemma parse_arguments_ok d ts : ts <> [] -> (List.length ts <= B)%nat -> (List.length ts <= LF)%nat ->
+    wp (parse_arguments pe LF d ts) (fun _ rest => lt_ts rest ts).
+  Proof.
+    intros Hne HB HL. unfold parse_arguments. apply wp_expect. intros ts1 H1.
+    apply wp_pbind. eapply wp_mono; [apply args_loop_ok; len|]. cbn. intros args ts2 H2.
+    apply wp_expect. intros ts3 H3. cbn. len.
+  Qed.
+
+  Lemma postfix_loop_ok : forall lf d ns node ts, ts <> [] -> (List.length ts <= B)%nat -> (List.length ts <= LF)%nat ->
+    (List.length ts <= lf)%nat ->
+    wp (postfix_loop pe LF lf d ns node ts) (fun _ rest => le_ts rest ts /\
+        ((is_kind (cur ts) TkOperator || is_kind (cur ts) TkBracket) && (val_is (cur ts) "." || val_is (cur ts) "?.") = true -> lt_ts rest ts)).
+  Proof.
+    induction lf as [|lf IH]; intros d ns node ts Hne HB HL Hlf.
+    - destruct ts; [contradiction|cbn in Hlf; lia].
+    - cbn [postfix_loop].
+      destruct (is_kind (cur ts) TkOperator || is_kind (cur ts) TkBracket) eqn:Ek; [|cbn; split; [len|intros; discriminate]].
+      destruct (val_is (cur ts) "." || val_is (cur ts) "?.") eqn:Ed.
+      + apply wp_next. intros ts1 H1. apply wp_next. intros ts2 H2.
+        destruct (negb (is_kind (cur ts1) TkIdentifier) && (negb (is_kind (cur ts1) TkOperator) || negb (valid_identifier (tval (cur ts1))))); [exact I|].
+        destruct (tok_is (cur ts2) TkBracket ["("%string]).
+        * apply wp_pbind. eapply wp_mono; [apply parse_arguments_ok; len|]. cbn. intros args ts3 H3.
+          eapply wp_mono; [apply IH; len|]. cbn. intros _ rest [H4 _]. split; [len|intros _; len].
+        * eapply wp_mono; [apply IH; len|]. cbn. intros _ rest [H4 _]. split; [len|intros _; len].
+      + destruct (val_is (cur ts) "[") eqn:Eb; [|cbn; split; [len|intros; discriminate]].
+        assert (Fin : forall x ts', lt_ts ts' ts ->
+                  wp (postfix_loop pe LF lf d ns x ts') (fun _ rest => le_ts rest ts /\ (true && false = true -> lt_ts rest ts))).
+        { intros x ts' H'. eapply wp_mono; [apply IH; len|]. cbn. intros _ rest [H4 _]. split; [len|intros; discriminate]. }
+        apply wp_next. intros ts1 H1.
+        destruct (tok_is (cur ts1) TkOperator [":"%string]).
+        * apply wp_next. intros ts2 H2.
+          destruct (negb (tok_is (cur ts2) TkBracket ["]"%string])).
+          -- apply wp_pbind. eapply pe_ok with (ts0 := ts); [len|len|]. intros e ts3 H3.
+             apply wp_expect. intros ts4 H4. apply Fin. len.
+          -- apply wp_expect. intros ts3 H3. apply Fin. len.
+        * apply wp_pbind. eapply pe_ok with (ts0 := ts); [len|len|]. intros e ts2 H2.
+          destruct (tok_is (cur ts2) TkOperator [":"%string]).
+          -- apply wp_next. intros ts3 H3.
+             destruct (negb (tok_is (cur ts3) TkBracket ["]"%string])).
+             ++ apply wp_pbind. eapply pe_ok with (ts0 := ts); [len|len|]. intros e2 ts4 H4.
+                apply wp_expect. intros ts5 H5. apply Fin. len.
+             ++ apply wp_expect. intros ts4 H4. apply Fin. len.
+          -- apply wp_expect. intros ts3 H3. apply Fin. len.
+  Qed.
+
+  Lemma parse_closure_ok d ts : ts <> [] -> (List.length ts <= B)%nat ->
+    wp (parse_closure pe d ts) (fun _ rest => lt_ts rest ts).
+  Proof.
+    intros Hne HB. unfold parse_closure. apply wp_expect. intros ts1 H1.
+    apply wp_pbind. eapply pe_ok with (ts0 := ts); [len|len|]. intros e ts2 H2.
+    apply wp_expect. intros ts3 H3. cbn. len.
+  Qed.
+
+  Lemma array_loop_ok : forall lf d acc ts, ts <> [] -> (List.length ts < B)%nat -> (List.length ts <= lf)%nat ->
+    wp (array_loop pe lf d acc ts) (fun _ rest => le_ts rest ts).
+  Proof.
+    induction lf as [|lf IH]; intros d acc ts Hne HB Hlf; cbn [array_loop].
+    - destruct ts; [contradiction|cbn in Hlf; lia].
+    - destruct (tok_is (cur ts) TkBracket ["]"%string]); [cbn; len|].
+      assert (K : forall ts1, le_ts ts1 ts ->
+              wp (pbind (pe 0 d ts1) (fun node ts2 => array_loop pe lf d (acc ++ [node]) ts2)) (fun _ rest => le_ts rest ts)).
+      { intros ts1 H1. apply wp_pbind. eapply wp_mono; [apply Hpe; len|]. cbn. intros e ts2 H2.
+        eapply wp_mono; [apply IH; len|]. cbn. intros _ rest H3. len. }
+      destruct acc.
+      + apply K. len.
+      + apply wp_expect. intros ts1 H1.
+        destruct (tok_is (cur ts1) TkBracket ["]"%string]); [cbn; len|]. apply K. len.
+  Qed.
+
+  Lemma parse_array_ok tk d ts : ts <> [] -> (List.length ts <= B)%nat -> (List.length ts <= LF)%nat ->
+    wp (parse_array pe LF tk d ts) (fun _ rest => lt_ts rest ts).
+  Proof.
+    intros Hne HB HL. unfold parse_array. apply wp_expect. intros ts1 H1.
+    apply wp_pbind. eapply wp_mono; [apply array_loop_ok; len|]. cbn. intros nodes ts2 H2.
+    apply wp_expect. intros ts3 H3. cbn. len.
+  Qed.
+
+  Lemma map_loop_ok : forall lf mloc d acc ts, ts <> [] -> (List.length ts < B)%nat -> (List.length ts <= lf)%nat ->
+    wp (map_loop pe lf mloc d acc ts) (fun _ rest => le_ts rest ts).
+  Proof.
+    induction lf as [|lf IH]; intros mloc d acc ts Hne HB Hlf; cbn [map_loop].
+    - destruct ts; [contradiction|cbn in Hlf; lia].
+    - destruct (tok_is (cur ts) TkBracket ["}"%string]); [cbn; len|].
+      assert (AK : forall key ts2, le_ts ts2 ts ->
+               wp (expect TkOperator ":" ts2 (fun ts3 =>
+                   pbind (pe 0 d ts3) (fun node ts4 => map_loop pe lf mloc d (acc ++ [EPair (at_loc mloc) key node]) ts4)))
+                  (fun _ rest => le_ts rest ts)).
+      { intros key ts2 H2. apply wp_expect. intros ts3 H3. apply wp_pbind.
+        eapply wp_mono; [apply Hpe; len|]. cbn. intros e ts4 H4.
+        eapply wp_mono; [apply IH; len|]. cbn. intros _ rest H5. len. }
+      assert (PAIR : forall ts1, le_ts ts1 ts ->
+               wp ((fun ts1 =>
+                 let ktk := cur ts1 in
+                 let after_key := fun key ts2 =>
+                   expect TkOperator ":" ts2 (fun ts3 =>
+                   pbind (pe 0 d ts3) (fun node ts4 => map_loop pe lf mloc d (acc ++ [EPair (at_loc mloc) key node]) ts4)) in
+                 if is_kind ktk TkNumber || is_kind ktk TkString || is_kind ktk TkIdentifier then
+                   next ts1 (fun ts2 => after_key (EStr (at_loc mloc) (tval ktk)) ts2)
+                 else if tok_is ktk TkBracket ["("%string] then
+                   pbind (pe 0 d ts1) after_key
+                 else PErr (tloc ktk)) ts1) (fun _ rest => le_ts rest ts)).
+      { intros ts1 H1. cbn beta zeta.
+        destruct (is_kind (cur ts1) TkNumber || is_kind (cur ts1) TkString || is_kind (cur ts1) TkIdentifier).
+        - apply wp_next. intros ts2 H2. apply AK. len.
+        - destruct (tok_is (cur ts1) TkBracket ["("%string]); [|exact I].
+          apply wp_pbind. eapply wp_mono; [apply Hpe; len|]. cbn. intros key ts2 H2. apply AK. len. }
+      destruct acc.
+      + apply PAIR. len.
+      + apply wp_expect. intros ts1 H1.
+        destruct (tok_is (cur ts1) TkBracket ["}"%string]); [cbn; len|].
+        destruct (tok_is (cur ts1) TkOperator [","%string]); [exact I|].
+        apply PAIR. len.
+  Qed.
+
+  Lemma parse_map_ok tk d ts : ts <> [] -> (List.length ts <= B)%nat -> (List.length ts <= LF)%nat ->
+    wp (parse_map pe LF tk d ts) (fun _ rest => lt_ts rest ts).
+  Proof.
+    intros Hne HB HL. unfold parse_map. apply wp_expect. intros ts1 H1.
+    apply wp_pbind. eapply wp_mono; [apply map_loop_ok; len|]. cbn. intros nodes ts2 H2.
+    apply wp_expect. intros ts3 H3. cbn. len.
+  Qed.
+
+  Lemma parse_identifier_expression_ok tk d ts : ts <> [] -> (List.length ts <= B)%nat -> (List.length ts <= LF)%nat ->
+    wp (parse_identifier_expression g pe LF tk d ts) (fun _ rest => le_ts rest ts).
+  Proof.
+    intros Hne HB HL. unfold parse_identifier_expression.
+    destruct (tok_is (cur ts) TkBracket ["("%string]); [|cbn; len].
+    destruct (lookup (tval tk) (g_builtins g)) as [arity|].
+    - apply wp_expect. intros ts1 H1.
+      assert (FIN : forall args ts2, le_ts ts2 ts1 ->
+                wp (expect TkBracket ")" ts2 (fun ts3 => POk (EBuiltin (at_loc (tloc tk)) (builtin_of_string (tval tk)) args) ts3))
+                   (fun _ rest => le_ts rest ts)).
+      { intros args ts2 H2. apply wp_expect. intros ts3 H3. cbn. len. }
+      destruct (arity =? 1)%Z.
+      + apply wp_pbind. eapply pe_ok with (ts0 := ts); [len|len|]. intros e ts2 H2. apply FIN. len.
+      + destruct (arity =? 2)%Z; [|apply FIN; len].
+        apply wp_pbind. eapply pe_ok with (ts0 := ts); [len|len|]. intros e ts2 H2.
+        apply wp_expect. intros ts3 H3. apply wp_pbind.
+        eapply wp_mono; [apply parse_closure_ok; len|]. cbn. intros c ts4 H4. apply FIN. len.
+    - apply wp_pbind. eapply wp_mono; [apply parse_arguments_ok; len|]. cbn. intros args ts1 H1. len.
+  Qed.
+
+  Lemma parse_primary_expression_ok d ts : ts <> [] -> (List.length ts <= B)%nat -> (List.length ts <= LF)%nat ->
+    wp (parse_primary_expression g o pe LF d ts) (fun _ rest => lt_ts rest ts).
+  Proof.
+    intros Hne HB HL. unfold parse_primary_expression.
+    destruct (tkind_of (cur ts)).
+    - apply wp_next. intros ts1 H1.
+      destruct (val_is (cur ts) "true"); [cbn; len|].
+      destruct (val_is (cur ts) "false"); [cbn; len|].
+      destruct (val_is (cur ts) "nil"); [cbn; len|].
+      apply wp_pbind. eapply wp_mono; [apply parse_identifier_expression_ok; len|]. cbn. intros e ts2 H2. len.
+    - apply wp_next. intros ts1 H1. destruct (number_value (o_float o) (tval (cur ts))); cbn; len.
+    - apply wp_next. intros ts1 H1. cbn. len.
+    - destruct (tok_is (cur ts) TkBracket ["["%string]).
+      + apply wp_pbind. eapply wp_mono; [apply parse_array_ok; len|]. cbn. intros e ts1 H1. len.
+      + destruct (tok_is (cur ts) TkBracket ["{"%string]); [|exact I].
+        apply wp_pbind. eapply wp_mono; [apply parse_map_ok; len|]. cbn. intros e ts1 H1. len.
+    - destruct (tok_is (cur ts) TkBracket ["["%string]).
+      + apply wp_pbind. eapply wp_mono; [apply parse_array_ok; len|]. cbn. intros e ts1 H1. len.
+      + destruct (tok_is (cur ts) TkBracket ["{"%string]); [|exact I].
+        apply wp_pbind. eapply wp_mono; [apply parse_map_ok; len|]. cbn. intros e ts1 H1. len.
+    - destruct (tok_is (cur ts) TkBracket ["["%string]).
+      + apply wp_pbind. eapply wp_mono; [apply parse_array_ok; len|]. cbn. intros e ts1 H1. len.
+      + destruct (tok_is (cur ts) TkBracket ["{"%string]); [|exact I].
+        apply wp_pbind. eapply wp_mono; [apply parse_map_ok; len|]. cbn. intros e ts1 H1. len.
+  Qed.
+
+  (* parse_base consumes at least one token, except for the `.` pointer inside a closure, which is
+     left for parsePostfixExpression (and then flagged for it) *)
+  Definition dot_first (ts : list token) : bool :=
+    (is_kind (cur ts) TkOperator || is_kind (cur ts) TkBracket) && (val_is (cur ts) "." || val_is (cur ts) "?.").
+
+  Lemma tok_is_dot tk : tok_is tk TkOperator ["."%string] = true -> is_kind tk TkOperator = true /\ val_is tk "." = true.
+  Proof.
+    unfold tok_is, is_kind, val_is. cbn. rewrite orb_false_r. intros H. apply andb_true_iff in H. destruct H as [H1 H2].
+    split; [exact H2|exact H1].
+  Qed.
+
+  Lemma parse_base_ok d ts : ts <> [] -> (List.length ts <= B)%nat -> (List.length ts <= LF)%nat ->
+    wp (parse_base g o pe LF d ts) (fun xb rest => lt_ts rest ts \/ (rest = ts /\ snd xb = true /\ dot_first ts = true)).
+  Proof.
+    intros Hne HB HL. unfold parse_base.
+    destruct (if is_kind (cur ts) TkOperator then lookup (tval (cur ts)) (g_unary g) else None) as [uprec|].
+    - apply wp_next. intros ts1 H1. apply wp_pbind. eapply pe_ok with (ts0 := ts); [len|len|]. intros e ts2 H2. cbn. left. len.
+    - destruct (tok_is (cur ts) TkBracket ["("%string]).
+      + apply wp_next. intros ts1 H1. apply wp_pbind. eapply pe_ok with (ts0 := ts); [len|len|]. intros e ts2 H2.
+        apply wp_expect. intros ts3 H3. cbn. left. len.
+      + destruct d.
+        * destruct (tok_is (cur ts) TkOperator ["#"%string] || tok_is (cur ts) TkOperator ["."%string]); [exact I|].
+          eapply wp_mono; [apply parse_primary_expression_ok; len|]. cbn. intros xb rest H. left. exact H.
+        * destruct (tok_is (cur ts) TkOperator ["#"%string]) eqn:Eh; cbn [orb].
+          -- apply wp_next. intros ts1 H1. cbn. left. len.
+          -- destruct (tok_is (cur ts) TkOperator ["."%string]) eqn:Ed.
+             ++ cbn. right. split; [reflexivity|]. split; [reflexivity|].
+                destruct (tok_is_dot _ Ed) as [K1 K2]. unfold dot_first. rewrite K1, K2. reflexivity.
+             ++ eapply wp_mono; [apply parse_primary_expression_ok; len|]. cbn. intros xb rest H. left. exact H.
+  Qed.
+
+  Lemma parse_primary_ok d ts : ts <> [] -> (List.length ts <= B)%nat -> (List.length ts <= LF)%nat ->
+    wp (parse_primary g o pe LF d ts) (fun _ rest => lt_ts rest ts).
+  Proof.
+    intros Hne HB HL. unfold parse_primary. apply wp_pbind.
+    eapply wp_mono; [apply parse_base_ok; len|]. cbn. intros xb ts1 [H1|(E1 & E2 & E3)].
+    - destruct (snd xb); [|cbn; exact H1].
+      eapply wp_mono; [apply postfix_loop_ok; len|]. cbn. intros _ rest [H2 _]. len.
+    - subst ts1. rewrite E2. eapply wp_mono; [apply postfix_loop_ok; len|]. cbn. intros _ rest [_ H2]. apply H2. exact E3.
+  Qed.
+
+  Lemma binary_loop_ok : forall lf prec d left ts, ts <> [] -> (List.length ts <= B)%nat -> (List.length ts <= lf)%nat ->
+    wp (binary_loop g o pe lf prec d left ts) (fun _ rest => le_ts rest ts).
+  Proof.
+    induction lf as [|lf IH]; intros prec d left ts Hne HB Hlf.
+    - destruct ts; [contradiction|cbn in Hlf; lia].
+    - cbn [binary_loop]. destruct (is_kind (cur ts) TkOperator); [|cbn; len].
+      destruct (lookup (tval (cur ts)) (g_binary g)) as [[oprec ra]|]; [|cbn; len].
+      destruct (oprec >=? prec)%Z; [|cbn; len].
+      apply wp_next. intros ts1 H1. apply wp_pbind. eapply pe_ok with (ts0 := ts); [len|len|]. intros right ts2 H2.
+      assert (R : forall x, wp (binary_loop g o pe lf prec d x ts2) (fun _ rest => le_ts rest ts)).
+      { intros x. eapply wp_mono; [apply IH; len|]. cbn. intros _ rest H3. len. }
+      destruct (val_is (cur ts) "matches"); [|apply R].
+      destruct right; try apply R. destruct (o_regex o s); [apply R|exact I].
+  Qed.
+
+  Lemma cond_loop_ok : forall lf d node ts, ts <> [] -> (List.length ts <= B)%nat -> (List.length ts <= lf)%nat ->
+    wp (cond_loop pe lf d node ts) (fun _ rest => le_ts rest ts).
+  Proof.
+    induction lf as [|lf IH]; intros d node ts Hne HB Hlf.
+    - destruct ts; [contradiction|cbn in Hlf; lia].
+    - cbn [cond_loop]. destruct (tok_is (cur ts) TkOperator ["?"%string]); [|cbn; len].
+      apply wp_next. intros ts1 H1.
+      destruct (negb (tok_is (cur ts1) TkOperator [":"%string])).
+      + apply wp_pbind. eapply pe_ok with (ts0 := ts); [len|len|]. intros e1 ts2 H2.
+        apply wp_expect. intros ts3 H3. apply wp_pbind. eapply pe_ok with (ts0 := ts); [len|len|]. intros e2 ts4 H4.
+        eapply wp_mono; [apply IH; len|]. cbn. intros _ rest H5. len.
+      + apply wp_next. intros ts2 H2. apply wp_pbind. eapply pe_ok with (ts0 := ts); [len|len|]. intros e2 ts3 H3.
+        eapply wp_mono; [apply IH; len|]. cbn. intros _ rest H5. len.
+  Qed.
+
+  Lemma expression_body_ok prec d ts : ts <> [] -> (List.length ts <= B)%nat -> (List.length ts <= LF)%nat ->
+    wp (expression_body g o pe LF prec d ts) (fun _ rest => lt_ts rest ts).
+  Proof.
+    intros Hne HB HL. unfold expression_body. apply wp_pbind.
+    eapply wp_mono; [apply parse_primary_ok; len|]. cbn. intros left ts1 H1.
+    apply wp_pbind. eapply wp_mono; [apply binary_loop_ok; len|]. cbn. intros node ts2 H2.
+    destruct (prec =? 0)%Z; [|cbn; len].
+    eapply wp_mono; [apply cond_loop_ok; len|]. cbn. intros _ rest H3. len.
+  Qed.
+End Body.
+
+Theorem parse_expr_ok g o : forall n prec d ts, ts <> [] -> (List.length ts < n)%nat ->
+  wp (parse_expr g o n prec d ts) (fun _ rest => lt_ts rest ts).
+Proof.
+  induction n as [|n IH]; intros prec d ts Hne Hn; [lia|].
+  cbn [parse_expr]. apply (expression_body_ok g o (parse_expr g o n) n IH n); [exact Hne|lia|lia].
+Qed.
+
+(* the fuel S (length ts) that parser.Parse's model uses is sufficient for EVERY token list *)
+Theorem parse_total g o ts : parse g o ts <> RFuel.
+Proof.
+  unfold parse, parse_with_fuel. destruct ts as [|t r]; [discriminate|].
+  pose proof (parse_expr_ok g o (S (List.length (t :: r))) 0%Z 0%nat (t :: r) ltac:(discriminate) ltac:(lia)) as H.
+  destruct (parse_expr g o (S (List.length (t :: r))) 0 0 (t :: r)); cbn in H; [|discriminate|contradiction].
+  destruct (is_kind (cur rest) TkEOF); discriminate.
+Qed.
+End ParseTotal.
+
+(* ------------------------------------------------------------------ reference semantics and VM model *)
+(* Sem.eval is a Coq function: for every expression, environment and state it yields a value or a
+   located failure - there is no third possibility and no non-termination *)
+Theorem eval_total (fe : X.Sem.Prim.fenv) (cfg : X.Sem.Sem.config) (env : value) (c : X.Sem.Sem.cast) (e : expr) :
+  (exists v s, X.Sem.Sem.run_ref fe cfg env c e = X.Sem.Sem.Done v s) \/
+  (exists er l s, X.Sem.Sem.run_ref fe cfg env c e = X.Sem.Sem.Stop er l s).
+Proof. destruct (X.Sem.Sem.run_ref fe cfg env c e) as [v s|er l s]; [left; eauto|right; eauto]. Qed.
+
+(* the VM model terminates on every compiled program: a fuel depth exists from which on the run is
+   finished (never `None` = out of fuel), with the result of the reference semantics *)
+Theorem vm_total (fe : X.Sem.Prim.fenv) (cfg : X.Sem.Sem.config) (env : value) (e : expr) :
+  X.BC.Compiler.compilable e = true ->
+  X.BC.RunProofs.stop_is_locatable (X.Sem.Sem.eval fe cfg env [] e X.Sem.Sem.rs0) ->
+  exists d0, forall d, (d0 <= d)%nat ->
+    X.BC.VM.run_code fe cfg env (X.BC.Compiler.compile (X.Sem.Sem.c_mapenv cfg) e) d <> None.
+Proof.
+  intros Hc Hl. destruct (X.BC.RunProofs.run_compiled fe cfg env e Hc Hl) as [d0 H].
+  exists d0. intros d Hd. rewrite (H d Hd). discriminate.
+Qed.
+
+(* ================================================================== Part 3: the instantiated pipeline *)
+Section Inst.
+  Variables uni_letter uni_digit uni_space : Z -> bool.
+  Variable gr : X.Parse.Parser.grammar.
+  Variable orc : X.Parse.Parser.oracles.
+  Variable fe : X.Sem.Prim.fenv.
+  Variable limit : Z.
+  Notation MS := (m_stages uni_letter uni_digit uni_space gr orc fe limit).
+
+  Theorem m_lex_total input : m_lex uni_letter uni_digit uni_space input <> PPanic.
+  Proof.
+    unfold m_lex. pose proof (LexTotal.lex_total uni_letter uni_digit uni_space input) as H.
+    destruct (X.Lex.Lexer.lex uni_letter uni_digit uni_space input); [discriminate|discriminate|contradiction].
+  Qed.
+
+  Theorem m_parse_total input ts : m_lex uni_letter uni_digit uni_space input = POk ts -> m_parse gr orc ts <> PPanic.
+  Proof.
+    unfold m_lex, m_parse. intros H.
+    destruct (X.Lex.Lexer.lex uni_letter uni_digit uni_space input) as [ts'| |] eqn:E; try discriminate.
+    inversion H; subst ts'. pose proof (LexTotal.lex_ok_nonempty _ _ _ _ _ E) as Hne.
+    destruct ts as [|t r]; [contradiction|].
+    pose proof (ParseTotal.parse_total gr orc (t :: r)) as Hp.
+    destruct (X.Parse.Parser.parse gr orc (t :: r)); [discriminate|discriminate|contradiction].
+  Qed.
+
+  (* parser.Parse: a tree or an error for EVERY rune list - never a panic, never out of fuel *)
+  Theorem m_parse_api_total input : m_parse_api uni_letter uni_digit uni_space gr orc input <> PPanic.
+  Proof.
+    unfold m_parse_api. apply obind_no_panic; [apply m_lex_total|]. intros ts H. eapply m_parse_total; eauto.
+  Qed.
+
+  Lemma m_unguarded_total rt a : guarded rt a StCompile = true -> guarded rt a StVMRun = true -> unguarded_total rt MS a.
+  Proof.
+    intros Hc Hv. constructor; unfold contained; cbn; try (right; intros; discriminate).
+    - right. intros x. apply m_lex_total.
+    - right. intros x ts H. eapply m_parse_total; eauto.
+    - left. exact Hc.
+    - left. exact Hv.
+  Qed.
+
+  Lemma m_visitors_contained rt a cs : visitors_contained rt MS a cs.
+  Proof. right. right. intros v t. discriminate. Qed.
+
+  (* Eval on the models: lexer + parser + compilable + reference semantics under the recover table *)
+  Theorem m_eval_never_panics rt calls input env :
+    guarded rt ApiEval StCompile = true -> guarded rt ApiEval StVMRun = true -> calls_wf false false calls = true ->
+    m_eval_api uni_letter uni_digit uni_space gr orc fe limit rt calls input env <> APanic.
+  Proof.
+    intros Hc Hv Hwf. unfold m_eval_api.
+    exact (containment_eval rt MS true calls input env (m_unguarded_total rt ApiEval Hc Hv) Hwf (m_visitors_contained rt ApiEval calls)).
+  Qed.
+
+  Theorem m_run_never_panics rt calls p env :
+    guarded rt ApiRun StCompile = true -> guarded rt ApiRun StVMRun = true -> calls_wf false true calls = true ->
+    m_run_api uni_letter uni_digit uni_space gr orc fe limit rt calls p env <> APanic.
+  Proof.
+    intros Hc Hv Hwf. unfold m_run_api.
+    exact (containment_run rt MS true calls [] p env (m_unguarded_total rt ApiRun Hc Hv) Hwf (m_visitors_contained rt ApiRun calls)).
+  Qed.
+End Inst.
